@@ -71,6 +71,8 @@ def opOracle (op : String) (c : Ctx) (x y : Dec) (iarg : Int) (o : Out) : List (
     if x.exp > 0 then (if o.d == x then [] else [("C09", "integer-valued operand changed")]) else
     let v := if op == "ceil" then ceilInt x else floorInt x
     if ndigits v.natAbs > c.prec then [] else
+    -- an integer beyond MaxExponent cannot be returned as a finite value of the context (C07): overflow
+    if (ndigits v.natAbs : Int) - 1 > c.emax then [] else
     if o.err == .none && o.fl == {} && o.d.form == .finite && o.d.exp == 0 &&
        (if o.d.neg then -(o.d.coeff : Int) else (o.d.coeff : Int)) == v then []
     else [("C09", s!"expected {v}")]
